@@ -14,7 +14,7 @@ import (
 type Check struct {
 	ID          string
 	Level       string   // exploration | fault_enumeration
-	Configs     []string // run i uses Configs[i % len]
+	Configs     []string // run i uses ConfigOf(i)
 	Run         func(c *core.Ctx)
 	PrePass     func(c *core.Ctx) int // thorough-only deterministic pre-pass; returns cases executed
 	Rule        string                // how cases are generated and what counts as distinct/non-trivial
@@ -24,6 +24,13 @@ type Check struct {
 	ThoroughSec int // wall budget of the thorough tier
 	NeedsSched  bool
 	ProbeNames  []string // probes that a thorough run is expected to hit (warning if zero)
+}
+
+// ConfigOf returns the configuration of run idx: a fixed pseudo-random assignment, so that the
+// mix of configurations is the same for every worker count and every worker sees every
+// configuration (idx % len would pin a worker to one configuration when len divides the stride).
+func (c *Check) ConfigOf(idx int64) string {
+	return c.Configs[int(core.Mix(uint64(idx)^0xC0FFEE1234)%uint64(len(c.Configs)))]
 }
 
 // Registry maps property id to check.
